@@ -40,14 +40,18 @@ Pairs    == {[t |-> "Pair", chain |-> c, amt |-> a, fee |-> f, prior |-> pr, sam
                c \in Chains, a \in {"p255plus", "small"}, f \in {"p255", "one"}, pr \in BOOLEAN, sb \in BOOLEAN, x \in BOOLEAN,
                w \in {"plain", "keys+prices"}}
 
-Cases == Deposits \cup ToHubs \cup Execs \cup SSExecs \cup CCExecs \cup Sends \cup Pairs
+\* two user transfers of one account whose batches time out together and that have expired by then: both are refunded in
+\* one EndBlock (sums on the account and in the supply)
+RPairs   == {[t |-> "RPair", chain |-> "ethereum", amt |-> a, both |-> b, world |-> "plain"] : a \in {"p255", "small"}, b \in BOOLEAN}
+
+Cases == Deposits \cup ToHubs \cup Execs \cup SSExecs \cup CCExecs \cup Sends \cup Pairs \cup RPairs
 
 VARIABLE case
 Init == case \in Cases
 Next == UNCHANGED case
 Spec == Init /\ [][Next]_case
 \* every case is well formed (all fields drawn from the declared classes); the behavioural claim is checked on the real code
-WellFormed == case.t \in {"Deposit", "ToHub", "Exec", "SSExec", "CCExec", "Send", "Pair"} /\ case.chain \in Chains
+WellFormed == case.t \in {"Deposit", "ToHub", "Exec", "SSExec", "CCExec", "Send", "Pair", "RPair"} /\ case.chain \in Chains
 
 ASSUME IF "VERIF_OUT" \in DOMAIN IOEnv THEN JsonSerialize(IOEnv.VERIF_OUT, SetToSeq(Cases)) ELSE TRUE
 =============================================================================
